@@ -1,6 +1,7 @@
 package nfa
 
 import (
+	"sync"
 	"unicode/utf8"
 
 	"github.com/coregx/coregex/internal/conv"
@@ -93,6 +94,13 @@ type PikeVM struct {
 	// internalState is used by legacy non-thread-safe methods.
 	// For concurrent usage, use *WithState methods with external PikeVMState.
 	internalState PikeVMState
+
+	// shared is non-nil for a PikeVM created by NewSharedPikeVM. Such an instance
+	// may be called from several goroutines at once (the engine-level fallback
+	// simulators are reachable from every search on a compiled pattern), so its
+	// search methods never touch internalState: each call runs on a private
+	// PikeVM borrowed from this pool.
+	shared *sync.Pool
 }
 
 // PikeVMState holds mutable per-search state for PikeVM.
@@ -287,6 +295,28 @@ func NewPikeVMLazy(nfa *NFA) *PikeVM {
 	}
 }
 
+// NewSharedPikeVM creates a PikeVM whose search methods are safe for concurrent
+// use by multiple goroutines. The instance holds no search state of its own;
+// every search borrows a private, lazily initialized PikeVM from an internal
+// sync.Pool and returns it afterwards. SetLongest and SetSkipAhead configure all
+// subsequent searches and must not be called concurrently with them.
+func NewSharedPikeVM(nfa *NFA) *PikeVM {
+	return &PikeVM{
+		nfa: nfa,
+		shared: &sync.Pool{
+			New: func() any { return NewPikeVMLazy(nfa) },
+		},
+	}
+}
+
+// borrow returns a private PikeVM configured like p. Only valid on a shared PikeVM.
+func (p *PikeVM) borrow() *PikeVM {
+	vm := p.shared.Get().(*PikeVM)
+	vm.skipAhead = p.skipAhead
+	vm.internalState.Longest = p.internalState.Longest
+	return vm
+}
+
 // ensureInternalState lazily initializes the internal PikeVMState if needed.
 // Called at the entry point of every search method that uses internalState.
 func (p *PikeVM) ensureInternalState() {
@@ -413,6 +443,11 @@ func updateCapture(caps cowCaptures, groupIndex uint32, isStart bool, pos int) c
 // This method uses internal state and is NOT thread-safe.
 // For concurrent usage, use SearchWithState.
 func (p *PikeVM) Search(haystack []byte) (int, int, bool) {
+	if p.shared != nil {
+		vm := p.borrow()
+		defer p.shared.Put(vm)
+		return vm.Search(haystack)
+	}
 	p.ensureInternalState()
 	return p.SearchAt(haystack, 0)
 }
@@ -424,6 +459,11 @@ func (p *PikeVM) Search(haystack []byte) (int, int, bool) {
 // This is significantly faster than Search() when you only need to know
 // if a match exists, not where it is.
 func (p *PikeVM) IsMatch(haystack []byte) bool {
+	if p.shared != nil {
+		vm := p.borrow()
+		defer p.shared.Put(vm)
+		return vm.IsMatch(haystack)
+	}
 	p.ensureInternalState()
 	if len(haystack) == 0 {
 		return p.matchesEmpty()
@@ -745,6 +785,11 @@ func (p *PikeVM) addThreadToNextForMatch(id StateID, haystack []byte, pos int) {
 // Unlike Search, it takes the FULL haystack and a starting position, so assertions
 // like ^ correctly check against the original input start, not a sliced position.
 func (p *PikeVM) SearchAt(haystack []byte, at int) (int, int, bool) {
+	if p.shared != nil {
+		vm := p.borrow()
+		defer p.shared.Put(vm)
+		return vm.SearchAt(haystack, at)
+	}
 	p.ensureInternalState()
 	if at > len(haystack) {
 		return -1, -1, false
@@ -894,6 +939,11 @@ func (p *PikeVM) searchUnanchoredAt(haystack []byte, startAt int) (int, int, boo
 //
 // Performance: O(maxEnd - startAt) instead of O(len(haystack) - startAt).
 func (p *PikeVM) SearchBetween(haystack []byte, startAt, maxEnd int) (int, int, bool) {
+	if p.shared != nil {
+		vm := p.borrow()
+		defer p.shared.Put(vm)
+		return vm.SearchBetween(haystack, startAt, maxEnd)
+	}
 	p.ensureInternalState()
 	if startAt > len(haystack) || startAt >= maxEnd {
 		return -1, -1, false
@@ -993,6 +1043,11 @@ func (p *PikeVM) searchUnanchoredBetween(haystack []byte, startAt, maxEnd int) (
 // SearchWithCaptures finds the first match with capture group positions.
 // Returns nil if no match is found.
 func (p *PikeVM) SearchWithCaptures(haystack []byte) *MatchWithCaptures {
+	if p.shared != nil {
+		vm := p.borrow()
+		defer p.shared.Put(vm)
+		return vm.SearchWithCaptures(haystack)
+	}
 	p.ensureInternalState()
 	return p.SearchWithCapturesAt(haystack, 0)
 }
@@ -1004,6 +1059,11 @@ func (p *PikeVM) SearchWithCaptures(haystack []byte) *MatchWithCaptures {
 // This method is used by FindAll* operations to correctly handle anchors like ^.
 // Unlike SearchWithCaptures, it takes the FULL haystack and a starting position.
 func (p *PikeVM) SearchWithCapturesAt(haystack []byte, at int) *MatchWithCaptures {
+	if p.shared != nil {
+		vm := p.borrow()
+		defer p.shared.Put(vm)
+		return vm.SearchWithCapturesAt(haystack, at)
+	}
 	p.ensureInternalState()
 	if at > len(haystack) {
 		return nil
@@ -1208,6 +1268,11 @@ func (p *PikeVM) searchAtWithCaptures(haystack []byte, startPos int) *MatchWithC
 //
 //nolint:gocognit // Merged match-check + step loop (Rust's nexts pattern) is inherently complex
 func (p *PikeVM) SearchWithCapturesInSpan(haystack []byte, spanStart, spanEnd int) *MatchWithCaptures {
+	if p.shared != nil {
+		vm := p.borrow()
+		defer p.shared.Put(vm)
+		return vm.SearchWithCapturesInSpan(haystack, spanStart, spanEnd)
+	}
 	p.ensureInternalState()
 	if spanStart > spanEnd || spanEnd > len(haystack) {
 		return nil
@@ -1312,6 +1377,11 @@ func (p *PikeVM) buildCapturesResult(caps []int, matchStart, matchEnd int) [][]i
 // SearchAll finds all non-overlapping matches in the haystack.
 // Returns a slice of matches in order of occurrence.
 func (p *PikeVM) SearchAll(haystack []byte) []Match {
+	if p.shared != nil {
+		vm := p.borrow()
+		defer p.shared.Put(vm)
+		return vm.SearchAll(haystack)
+	}
 	p.ensureInternalState()
 	var matches []Match
 	pos := 0
@@ -1695,6 +1765,11 @@ func checkLookAssertion(look Look, haystack []byte, pos int) bool {
 //
 // This method uses internal state and is NOT thread-safe.
 func (p *PikeVM) SearchWithSlotTable(haystack []byte, mode SearchMode) (int, int, bool) {
+	if p.shared != nil {
+		vm := p.borrow()
+		defer p.shared.Put(vm)
+		return vm.SearchWithSlotTable(haystack, mode)
+	}
 	p.ensureInternalState()
 	return p.SearchWithSlotTableAt(haystack, 0, mode)
 }
@@ -1709,6 +1784,11 @@ func (p *PikeVM) SearchWithSlotTable(haystack []byte, mode SearchMode) (int, int
 //
 // Returns (start, end, found) for the first match.
 func (p *PikeVM) SearchWithSlotTableAt(haystack []byte, at int, mode SearchMode) (int, int, bool) {
+	if p.shared != nil {
+		vm := p.borrow()
+		defer p.shared.Put(vm)
+		return vm.SearchWithSlotTableAt(haystack, at, mode)
+	}
 	p.ensureInternalState()
 	if at > len(haystack) {
 		return -1, -1, false
@@ -2176,6 +2256,11 @@ func (p *PikeVM) addSearchThreadToNext(t searchThread, srcState StateID, haystac
 // SearchWithSlotTableCaptures finds the first match and returns captures.
 // Uses zero-allocation SlotTable architecture (Rust approach).
 func (p *PikeVM) SearchWithSlotTableCaptures(haystack []byte) *MatchWithCaptures {
+	if p.shared != nil {
+		vm := p.borrow()
+		defer p.shared.Put(vm)
+		return vm.SearchWithSlotTableCaptures(haystack)
+	}
 	p.ensureInternalState()
 	return p.SearchWithSlotTableCapturesAt(haystack, 0)
 }
@@ -2184,6 +2269,11 @@ func (p *PikeVM) SearchWithSlotTableCaptures(haystack []byte) *MatchWithCaptures
 // Uses dual SlotTable (curr/next) for zero-allocation capture tracking.
 // Matches Rust's PikeVM Cache with curr/next ActiveStates (pikevm.rs:1878).
 func (p *PikeVM) SearchWithSlotTableCapturesAt(haystack []byte, at int) *MatchWithCaptures {
+	if p.shared != nil {
+		vm := p.borrow()
+		defer p.shared.Put(vm)
+		return vm.SearchWithSlotTableCapturesAt(haystack, at)
+	}
 	p.ensureInternalState()
 	if at > len(haystack) {
 		return nil
